@@ -131,31 +131,6 @@ def _run_one(key):
             if r.status != "ok":
                 out["inconclusive"].append(r.info)
         out["nontrivial"] = sum(1 for r in results if r.status == "ok" and r.value.nontrivial)
-        # validate a sample of passing paths against the unmodified library (all in thorough)
-        every = ob.validate_every or (1 if tier == "thorough" else 0)
-        if every:
-            sample = ok_paths[::every]
-        else:
-            k = min(len(ok_paths), 3)
-            sample = rnd.sample(ok_paths, k) if k else []
-        for r in sample:
-            conc = ob.concretise(r.value, r.model)
-            rp = ob.replay(conc, True)
-            if rp.get("unreplayed"):
-                continue
-            out["validated"] += 1
-            if len(out["samples"]) < 2:
-                out["samples"].append({"case": conc, "verdict": "holds"})
-            if not rp["lifted_matches"]:
-                out["status"] = "harness_error"
-                out["error"] = "lifted prediction differs from the unmodified library on a passing witness: %s" % json.dumps(
-                    {"case": conc, "detail": rp.get("detail")}, default=str)[:1500]
-                break
-            if not rp["real_ok"]:
-                # the lifting says fine, reality says broken, and they agree on outputs: oracle mismatch
-                out["status"] = "harness_error"
-                out["error"] = "replay oracle disagrees with lifted oracle: %s" % json.dumps(conc, default=str)[:800]
-                break
         # counterexamples: replay every one (cap per finding)
         per_finding = {}
         for r in bad_paths:
@@ -187,6 +162,34 @@ def _run_one(key):
                 out["violations"].append({"case": conc, "detail": rp.get("detail"), "lifted_matches": rp["lifted_matches"]})
                 if len(out["violations"]) >= 3:
                     break
+        # validate a sample of passing paths against the unmodified library (all in thorough)
+        every = ob.validate_every or (1 if tier == "thorough" else 0)
+        if every:
+            sample = ok_paths[::every]
+        else:
+            k = min(len(ok_paths), 3)
+            sample = rnd.sample(ok_paths, k) if k else []
+        for r in sample:
+            if out["violations"] or out["status"] == "harness_error":
+                # a confirmed counterexample is definitive; a fidelity mismatch on a passing witness must not mask it
+                break
+            conc = ob.concretise(r.value, r.model)
+            rp = ob.replay(conc, True)
+            if rp.get("unreplayed"):
+                continue
+            out["validated"] += 1
+            if len(out["samples"]) < 2:
+                out["samples"].append({"case": conc, "verdict": "holds"})
+            if not rp["lifted_matches"]:
+                out["status"] = "harness_error"
+                out["error"] = "lifted prediction differs from the unmodified library on a passing witness: %s" % json.dumps(
+                    {"case": conc, "detail": rp.get("detail")}, default=str)[:1500]
+                break
+            if not rp["real_ok"]:
+                # the lifting says fine, reality says broken, and they agree on outputs: oracle mismatch
+                out["status"] = "harness_error"
+                out["error"] = "replay oracle disagrees with lifted oracle: %s" % json.dumps(conc, default=str)[:800]
+                break
         for fid, n in per_finding.items():
             for k in out["known"]:
                 if k["finding"] == fid:
@@ -374,8 +377,13 @@ def write_evidence(mod, pid, tier, seed, results, wall, nviol, known_seen, harne
         "wall_s": round(wall, 2),
         "violations": nviol,
     }
-    os.makedirs(os.path.join(VERIF, "evidence"), exist_ok=True)
-    with open(os.path.join(VERIF, "evidence", pid + ".json"), "w") as f:
+    # evidence under /verif/evidence describes /repo only; a run pointed at another tree (seeded change, mutant) through
+    # LX_REPO writes its evidence to scratch
+    alt = os.environ.get("LX_REPO")
+    evdir = os.path.join(VERIF, "evidence") if not alt or os.path.realpath(alt) == "/repo" else \
+        os.environ.get("LX_EVIDENCE_DIR", "/var/tmp/lx-evidence-alt")
+    os.makedirs(evdir, exist_ok=True)
+    with open(os.path.join(evdir, pid + ".json"), "w") as f:
         json.dump(ev, f, indent=1, default=str)
 
 
